@@ -49,12 +49,16 @@ CONSTANTS TrajOnHit,      \* propagate() assigns _trajectory also when served fr
                           \* computed from, and a hit re-applies the cached correction to the orbit
           SaveOpts,       \* save/load carries the correction options in force
           LeftoverFix,    \* attributes restored by a load do not linger in the orbit's own __dict__
+          CorrInvalidates,\* apply_correction drops _trajectory / _stability_info whenever the STATE changed (not only when the
+                          \* period setter sees a different period)
+          ExtraPeriods,   \* further user-set periods; <<"T", "tight">> = the very value the corrector will find (copied from
+                          \* another, already corrected orbit): then a correction changes the state but NOT the period
           Props,          \* set of propagation settings <<steps, method, order>> (strings)
           MaxLen          \* bound on the history length (state constraint)
 
 Tols       == {"loose", "tight"}
 DefaultTol == "tight"                  \* library default tol = 1e-12
-UserPeriods == {<<"P1">>, <<"P2">>}
+UserPeriods == {<<"P1">>, <<"P2">>} \cup ExtraPeriods
 NoPeriod   == <<"none">>
 
 VARIABLES L,      \* logical state   [init, per, prop, copt]
@@ -159,7 +163,8 @@ Correct(o) ==
         k  == CorrKey(tI, I.init, I.per)
         h  == Has(cor, k)
         x1 == Corr(tI, I.init)
-        r  == ImplSetPeriod([I EXCEPT !.init = x1], {}, PeriodOf(x1))     \* apply_correction
+        r0 == ImplSetPeriod([I EXCEPT !.init = x1], {}, PeriodOf(x1))     \* apply_correction: reset(), _initial_state, period setter
+        r  == IF CorrInvalidates /\ x1 # I.init THEN [r0 EXCEPT !.I.traj = <<>>, !.I.stab = <<>>] ELSE r0
         xL == Corr(tL, L.init)
     IN  /\ IF h THEN /\ IF CorrKeyState THEN I' = r.I /\ dyn' = {} ELSE UNCHANGED <<I, dyn>>
                      /\ UNCHANGED cor
@@ -167,7 +172,9 @@ Correct(o) ==
                 ELSE /\ I' = r.I /\ dyn' = {}
                      /\ cor' = Put(cor, k, CorrStamp(x1))
                      /\ Record("Correct", <<o>>, Val(CorrStamp(x1)), Val(CorrStamp(xL)), <<Hit("cor", "correct", FALSE)>>)
-        /\ L' = [LogSetPeriod([L EXCEPT !.init = xL], PeriodOf(xL)) EXCEPT !.init = xL]
+        \* on a fresh object: the trajectory attribute stands for nothing any more once the state OR the period changed
+        /\ L' = LET l1 == LogSetPeriod([L EXCEPT !.init = xL], PeriodOf(xL))
+                IN  [l1 EXCEPT !.init = xL, !.prop = IF xL # L.init THEN <<>> ELSE l1.prop]
         /\ UNCHANGED <<saved, left, alias>>
 
 \* PeriodicOrbit.propagate(steps, method, order)
